@@ -389,6 +389,20 @@ def run(ctx, prop):
             res.mismatches.append({"case": c, "what": "graph construction failed: " + r["build_err"]})
             items.append(None)
             continue
+        # a stage handed to the Runner more than once is decided here (C03: exactly once); such a trace is no execution of the LTS
+        # at all and replaying it through `accepts` would only cost time
+        starts = {}
+        for ev in r["trace"]:
+            if ev[0] == "S":
+                starts[ev[1]] = starts.get(ev[1], 0) + 1
+        if any(n > 1 for n in starts.values()):
+            twice = sorted(i for i, n in starts.items() if n > 1)
+            if prop == "C03":
+                res.violations.append({"class": None, "what": "a stage was run more than once (stages %s)" % twice, "case": {kk: v for kk, v in c.items() if kk != "id"}, "observed": r})
+            else:
+                res.mismatches.append({"what": "a stage was run more than once (stages %s): not an execution of the scheduler LTS" % twice, "case": {kk: v for kk, v in c.items() if kk != "id"}, "observed": r})
+            items.append(None)
+            continue
         outs = vlib.clist([vlib.cbool(s["ok"]) for s in c["stages"]])
         items.append("(%d%%N, judge %s %s %s %s %s)" % (k, coq_cfg(c["stages"]), outs, coq_trace(r["trace"]),
                                                          vlib.clist(r["fin"]), vlib.cbool(r["err"])))
